@@ -21,6 +21,7 @@ type RunSpec struct {
 	Sched      string           `json:"sched,omitempty"` // "" (sequential/deterministic), "explore", "delay"
 	Preempt    int              `json:"preempt,omitempty"`
 	Select     bool             `json:"explore_select,omitempty"`
+	Unstub     []string         `json:"unstub,omitempty"`
 	LeakCheck  bool             `json:"leak_check,omitempty"`
 	Unwind     int              `json:"unwind,omitempty"`
 	MaxPaths   int              `json:"max_paths,omitempty"`
@@ -144,7 +145,7 @@ func Overlay(repoDir, harnessDir, pkg string, native bool) (map[string][]byte, e
 			if strings.Contains(string(b), "vdoc(") {
 				needDoc = true
 			}
-			if strings.Contains(string(b), "vboltbucket(") || strings.Contains(string(b), "vboltdb(") {
+			if strings.Contains(string(b), "vboltbucket(") || strings.Contains(string(b), "vboltdb(") || strings.Contains(string(b), "vboltlocked(") {
 				needBolt = true
 			}
 			ov[filepath.Join(pkgDir, e.Name())] = b
@@ -230,6 +231,7 @@ func Run(spec RunSpec) *Result {
 		DelayMode:     spec.Sched == "delay",
 		DetSched:      spec.Sched == "" || spec.Sched == "det",
 		ExploreSelect: spec.Select,
+		Unstub:        spec.Unstub,
 		LeakCheck:     spec.LeakCheck,
 		MaxSteps:      spec.MaxSteps,
 		Unwind:        spec.Unwind,
